@@ -358,6 +358,12 @@ func (p *Pool) Put(x any) {
 	}
 
 	p.items = append(p.items, x)
+
+	// Like Unlock, Put publishes: code that keeps using the object after
+	// putting it back must be interleavable with the next Get.
+	if active() {
+		point(&op{kind: opPool, label: ":Put-done", ready: always})
+	}
 }
 
 // PoolLen reports the number of pooled objects (harness introspection).
